@@ -272,6 +272,15 @@ func (conn *ssConn) readPackets() error {
 	rdLen, rdErr := conn.Conn.Read(buf[:])
 	conn.receiveBuffer.Write(buf[:rdLen])
 
+	if err := conn.decodePackets(); err != nil {
+		return err
+	}
+	return rdErr
+}
+
+// decodePackets decodes and processes all of the complete packets that are
+// present in the receive buffer.
+func (conn *ssConn) decodePackets() error {
 	// Process incoming packets incrementally.  conn.receiveState stores
 	// the results of partial processing.
 	for conn.receiveBuffer.Len() > 0 {
@@ -366,7 +375,7 @@ func (conn *ssConn) readPackets() error {
 		conn.receiveState.totalLen = 0
 		conn.receiveState.payloadLen = 0
 	}
-	return rdErr
+	return nil
 }
 
 func (conn *ssConn) clientHandshake(kB *ssSharedSecret, sessionKey *uniformdh.PrivateKey) error {
@@ -444,8 +453,15 @@ handshakeUDH:
 		// Ok, done processing the handshake, discard the response, and do the
 		// key derivation based off the calculated shared secret.
 		_ = conn.receiveBuffer.Next(n)
-		err = conn.initCrypto(seed)
-		return err
+		if err = conn.initCrypto(seed); err != nil {
+			return err
+		}
+
+		// Packets that arrived along with the server's handshake response
+		// are already in the receive buffer, process them now as the peer
+		// may not send anything else until it receives a reply, and Read()
+		// only decodes after it has read from the network.
+		return conn.decodePackets()
 	}
 }
 
